@@ -210,7 +210,7 @@ class Scn:
         rc, out, _ = r.plain_git("ls-files", "-z")
         self.files = [x for x in out.split("\0") if x]
 
-    def op_craft(self):
+    def op_craft(self, variant=None):
         """rewrite the note of a commit that credits some lines, in adversarial but valid ways"""
         r = self.r
         cands = []
@@ -227,7 +227,7 @@ class Scn:
         except Exception:
             return
         hl = head.split("\n")
-        variant = self.rng.choice(["overlap", "unresolved-last", "foreign", "dup-section", "bad-schema", "no-divider", "human-named-like-hash"])
+        variant = variant or self.rng.choice(["overlap", "unresolved-last", "foreign", "dup-section", "bad-schema", "no-divider", "human-named-like-hash"])
         # first section's first entry
         ent = next((i for i, l in enumerate(hl) if l.startswith("  ")), None)
         if ent is None:
@@ -300,7 +300,11 @@ class Scn:
         self.op_init()
         if self.script:
             for op in self.script:
-                getattr(self, "op_" + op)()
+                name, _, arg = op.partition(":")
+                if arg:
+                    getattr(self, "op_" + name)(arg)
+                else:
+                    getattr(self, "op_" + name)()
             return
         nops = self.rng.randint(3, 7)
         ops = ["ai", "ai", "ai", "human", "rename", "rename", "copy", "ws", "merge", "craft"]
@@ -449,12 +453,18 @@ def run_query(scn, notes, fname, opts, rev_label, out):
     def fail(sig, what, **kw):
         out["fail"].append((sig, dict(wit, **kw), what))
 
+    # an empty file has no line to attribute: git blame prints nothing; git-ai blame refuses it
+    # ("Invalid line range: 1:0", asserted by /repo tests/blame_comprehensive.rs test_blame_edge_empty_file).
+    # C09 speaks about lines, so this is recorded as an observation, not as a failure.
+    if not blines:
+        rc, _, jerr = r.ai("blame", "--json", *opts, ap)
+        out["tags"].append("observation:empty-file-exit-%d" % rc)
+        return
     # ---- JSON
     rc, jt, jerr = r.ai("blame", "--json", *opts, ap)
     got_json = None
     if rc != 0:
-        sig = "exit:empty-file" if not blines and "File has 0 lines" in jerr else "exit:git-ai-json-fails"
-        fail(sig, f"git blame succeeds but git-ai blame --json exits {rc}: {jerr.strip()[:200]}")
+        fail("exit:git-ai-json-fails", f"git blame succeeds but git-ai blame --json exits {rc}: {jerr.strip()[:200]}")
     else:
         try:
             got_json = U.expand_json_lines(json.loads(jt))
@@ -462,14 +472,21 @@ def run_query(scn, notes, fname, opts, rev_label, out):
             fail("format:json-unparsable", str(e), output=jt[:400])
     exp_ai = {l: v[1] for l, v in exp.items() if v[0] == "ai"}
     amb = {l for l, v in exp.items() if v[0] == "ambiguous"}
+    # known finding family: a human author whose *name* is a session hash credited in this output is
+    # indistinguishable from that session in line_authors (string-keyed) — classified separately
+    clash = {l for l, v in exp.items() if v[0] == "human" and v[1] in set(exp_ai.values())}
+    if clash:
+        out["tags"].append("name-clash-lines")
     if got_json is not None:
         diff = {l for l in set(exp_ai) | set(got_json) if l not in amb and exp_ai.get(l) != got_json.get(l)}
+        cl = {l for l in diff if l in clash}
+        if cl:
+            fail("json:human-name-equals-prompt-hash", "a human author named like a session hash is listed by --json as that session",
+                 lines=sorted(cl)[:10], got={str(l): got_json.get(l) for l in sorted(cl)[:10]})
+        diff -= clash
         if diff:
             lost = [l for l in diff if l in exp_ai and l not in got_json]
-            clash = [l for l in diff if l not in exp_ai and l in got_json and by_final.get(l, {}).get("author") == got_json[l]]
-            if clash and len(clash) == len(diff):
-                sig = "json:human-name-equals-prompt-hash"
-            elif lost and len(lost) == len(diff) and all(by_final[l]["filename"] != fname for l in lost):
+            if lost and len(lost) == len(diff) and all(by_final[l]["filename"] != fname for l in lost):
                 sig = "overlay:rename-loses-attribution"
             else:
                 sig = "overlay:json-differs"
@@ -481,10 +498,7 @@ def run_query(scn, notes, fname, opts, rev_label, out):
     for flag in ([], ["--show-prompt"]):
         rc, dt, derr = r.ai("blame", *flag, *opts, ap)
         if rc != 0:
-            if blines or "File has 0 lines" not in derr:
-                fail("exit:git-ai-default-fails", f"git-ai blame {flag} exits {rc}: {derr.strip()[:200]}")
-            elif not flag:
-                fail("exit:empty-file", f"git blame succeeds on an empty file, git-ai blame exits {rc}: {derr.strip()[:200]}")
+            fail("exit:git-ai-default-fails", f"git-ai blame {flag} exits {rc}: {derr.strip()[:200]}")
             continue
         body = dt.split("\n---\n")[0] if flag else dt
         try:
@@ -507,13 +521,15 @@ def run_query(scn, notes, fname, opts, rev_label, out):
             else:
                 want = None
             if want is not None and author != want.strip():
-                bad_author.append([l, author, want])
+                if l in clash:
+                    fail("json:human-name-equals-prompt-hash", f"default format {flag} shows a human line under a session", row=[l, author, want])
+                else:
+                    bad_author.append([l, author, want])
             marker = shacol.startswith("^")
             sha = shacol.lstrip("^")
             if not bl["commit"].startswith(sha) or len(sha) < 4:
                 bad_commit.append([l, shacol, bl["commit"]])
         if bad_author:
-            only_clash = got_json is not None and all(w == a for (_, a, w) in bad_author)
             fail("format:default-author", f"default format {flag} shows another author than git blame + notes", rows=bad_author[:8])
         if bad_commit:
             fail("format:default-commit", "default format names another commit than git blame", rows=bad_commit[:8])
@@ -533,7 +549,7 @@ def run_query(scn, notes, fname, opts, rev_label, out):
             if got_json is not None:
                 dis = []
                 for l, (_, author) in rows.items():
-                    if exp[l][0] == "ambiguous":
+                    if exp[l][0] == "ambiguous" or l in clash:
                         continue
                     h = got_json.get(l)
                     if h is not None:
@@ -551,8 +567,7 @@ def run_query(scn, notes, fname, opts, rev_label, out):
     for flag, inc in (("--porcelain", False), ("--line-porcelain", False), ("--incremental", True)):
         rc, pt, perr2 = r.ai("blame", flag, *opts, ap)
         if rc != 0:
-            if blines or "File has 0 lines" not in perr2:
-                fail("exit:git-ai-porcelain-fails", f"git-ai blame {flag} exits {rc}: {perr2.strip()[:200]}")
+            fail("exit:git-ai-porcelain-fails", f"git-ai blame {flag} exits {rc}: {perr2.strip()[:200]}")
             continue
         gotc = U.porcelain_commits(pt, incremental=inc)
         if gotc != want_c:
@@ -566,7 +581,7 @@ def run_query(scn, notes, fname, opts, rev_label, out):
                                          "opts": {"hashes_as_names": True}},
                          "render_req": {"op": "bo_render", "full": True,
                                         "groups": [{k: v for k, v in g.items() if k != "_n"} for g in groups]},
-                         "git_lines": ptxt.split("\n")[:-1] if ptxt.endswith("\n") else ptxt.split("\n"),
+                         "git_lines": (ptxt.split("\n")[:-1] if ptxt.endswith("\n") else ptxt.split("\n")) if ptxt else [],
                          "got_json": got_json, "exp_ai": exp_ai, "amb": sorted(amb),
                          "ascii_paths": all(ord(c) < 128 for g in groups for c in g["filename"] + ((g["previous"] or ["", ""])[1]))})
 
@@ -726,6 +741,8 @@ def phase_e2e(res, seed, n, tier, scripts=()):
     for m in model_items:
         reqs.append(m["overlay_req"])
         reqs.append(m["render_req"])
+    if not os.path.exists(C.DRIVER_BIN):
+        C.lake_build(["driver"])      # another check may be relinking it; wait for the lock and rebuild
     resp = C.run_driver(reqs) if reqs else []
     bad_overlay, bad_render = [], []
     for i, m in enumerate(model_items):
